@@ -200,8 +200,23 @@ func (c *PickCol) Select(shards int) (cases []string, counts map[string]int) {
 	var chosen []KCand
 	for _, kind := range []string{"pick", "finish", "overlaps", "memlevel", "wf"} {
 		n := c.capOf(kind)
-		top := thin(c.cands[kind+"!!"], n)
-		hot := thin(c.cands[kind+"!"], n-len(top))
+		// the top class takes what it needs up to two thirds of the cap (more only if the other classes leave room)
+		nTop := len(c.cands[kind+"!!"])
+		if others := len(c.cands[kind+"!"]) + len(c.cands[kind]); nTop > n*2/3 {
+			nTop = n * 2 / 3
+			if n-others > nTop {
+				nTop = n - others
+			}
+		}
+		top := thin(c.cands[kind+"!!"], nTop)
+		nHot, m := len(c.cands[kind+"!"]), n-len(top)
+		if nHot > m*2/3 {
+			nHot = m * 2 / 3
+			if m-len(c.cands[kind]) > nHot {
+				nHot = m - len(c.cands[kind])
+			}
+		}
+		hot := thin(c.cands[kind+"!"], nHot)
 		rest := thin(c.cands[kind], n-len(top)-len(hot))
 		chosen = append(chosen, top...)
 		chosen = append(chosen, hot...)
@@ -421,28 +436,40 @@ func (pr *pickRun) onEdit(r *Runner, e leveldb.VerifEdit) {
 		r.Stats["pick_missing"]++
 		return
 	}
-	// the record must delete exactly the compaction's inputs
-	del0, del1 := map[int64]bool{}, map[int64]bool{}
-	other := false
-	for _, d := range e.Deleted {
-		switch d.Level {
-		case p.SourceLevel:
-			del0[d.Num] = true
-		case p.SourceLevel + 1:
-			del1[d.Num] = true
-		default:
-			other = true
+	// the record must delete exactly the compaction's inputs; a move deletes (and re-adds one level down) its only
+	// source input.  A record that does not fit is only counted: the compaction itself is still compared.
+	moved := len(e.Deleted) == 1 && len(e.Added) == 1 && e.Deleted[0].Num == e.Added[0].Num
+	if moved {
+		if !(len(p.T0) == 1 && p.T0[0] == e.Deleted[0].Num && e.Deleted[0].Level == p.SourceLevel && e.Added[0].Level == p.SourceLevel+1) {
+			r.Stats["pick_not_matching_record"]++
+		} else if len(p.T1) > 0 {
+			r.Stats["moves_with_parents"]++
+			r.WfFailures = append([]string{fmt.Sprintf("table %d moved from level %d to level %d although the compaction has level %d inputs %v",
+				p.T0[0], p.SourceLevel, p.SourceLevel+1, p.SourceLevel+1, p.T1)}, r.WfFailures...)
+		}
+	} else {
+		del0, del1 := map[int64]bool{}, map[int64]bool{}
+		other := false
+		for _, d := range e.Deleted {
+			switch d.Level {
+			case p.SourceLevel:
+				del0[d.Num] = true
+			case p.SourceLevel + 1:
+				del1[d.Num] = true
+			default:
+				other = true
+			}
+		}
+		if other || !sameSet(p.T0, del0) || !sameSet(p.T1, del1) {
+			r.Stats["pick_not_matching_record"]++
 		}
 	}
-	if other || !sameSet(p.T0, del0) || !sameSet(p.T1, del1) {
-		r.Stats["pick_not_matching_record"]++
-		return
-	}
-	moved := len(e.Deleted) == 1 && len(e.Added) == 1 && e.Deleted[0].Num == e.Added[0].Num
 	r.Stats["picks_observed"]++
 	r.Stats[fmt.Sprintf("picks_observed_level_%d", p.SourceLevel)]++
 	if msgs := r.InputsClosed(p); len(msgs) > 0 {
-		r.WfFailures = append(r.WfFailures, msgs...)
+		// the pick precedes what the installed version shows: report it first
+		r.Stats["inputs_not_closed"]++
+		r.WfFailures = append(msgs, r.WfFailures...)
 	}
 	closure := p.Seed
 	if p.SourceLevel == 0 {
@@ -655,7 +682,7 @@ func (pr *pickRun) afterOp(r *Runner, i int, op *Op) {
 					}
 				}
 			}
-			pr.col.Add(KCand{Kind: "overlaps", Hot: inverted || len(got) > 1, Tags: tags,
+			pr.col.Add(KCand{Kind: "overlaps", Hot: !inverted && len(got) > 1, Tags: tags,
 				Text: fmt.Sprintf("KOverlaps %d %s %s %s %s %s", cid, tfs, kOptHex(umin), kOptHex(umax), vlib.CoqBool(overlapped), KNums(got))})
 			pr.nOv++
 		}
@@ -686,7 +713,7 @@ func (pr *pickRun) afterOp(r *Runner, i int, op *Op) {
 		if got > 0 && got < maxLevel {
 			tags = append(tags, "k_memlevel_stopped_between")
 		}
-		pr.col.Add(KCand{Kind: "memlevel", Hot: got > 0, Tags: tags,
+		pr.col.Add(KCand{Kind: "memlevel", Hot: !inverted && got > 0, Tags: tags,
 			Text: fmt.Sprintf("KMemLevel %d %s %s %s %s %d %d", cid, vs, vlib.CoqHex(umin), vlib.CoqHex(umax), KNums(gpl), maxLevel, got)})
 		pr.nMem++
 	}
